@@ -15,6 +15,11 @@ open Lean Scico.Wire Scico.Jaxpr
               sparse matrix family proved linear in `Proofs/JaxprArray.lean`) evaluated at `Float` on the operand
               arrays `xs`, entries `0 … rows.length-1` (harness/jaxpr_family.py compares with the JAX primitive).
 
+  * `runfam` : `{nin, eqns, outs, tabs, x, sizes}` → `Scico.Jaxpr.run` of the program under the family interpretation
+              `famDen` (Model/Jaxpr.lean; at ℂ `Fam.famInterp`, proved sound for every table) at complex floats: equation `k`
+              carries primitive id `k` and `tabs[k]` is its table (sparse rows / bilinear rows / quotient index pairs /
+              real-part rows / literal values), `x` the input leaves as `[re, im]` pairs, `sizes` the output sizes.
+
   scalar interpretation (`V = Float`):
     lit1 _ = 0, lit0 k = consts[k];  linAll 0 = Σ args, 1 = −a, 2 = a (copy), 3 = where(p ≠ 0, a, 0), 4 = a − b;
     bilinear _ = a·b;  divLike _ = a/b;  realPart _ = a;  conj _ = a;  nonlin 0 = |a|, 1 = max(a,b), 2 = a², _ = a·|a|
@@ -81,6 +86,78 @@ def scalarInterp (consts : List Float) : Interp Float where
 
 instance : Zero Float := ⟨0.0⟩
 
+/-! complex floats: the scalar type at which the family (`famDen`) is run against JAX -/
+
+structure CF where
+  re : Float
+  im : Float
+
+instance : Zero CF := ⟨⟨0, 0⟩⟩
+instance : Add CF := ⟨fun a b => ⟨a.re + b.re, a.im + b.im⟩⟩
+instance : Mul CF := ⟨fun a b => ⟨a.re * b.re - a.im * b.im, a.re * b.im + a.im * b.re⟩⟩
+instance : Div CF := ⟨fun a b =>
+  if b.im < 0 || 0 < b.im then
+    let d := b.re * b.re + b.im * b.im
+    ⟨(a.re * b.re + a.im * b.im) / d, (a.im * b.re - a.re * b.im) / d⟩
+  else ⟨a.re / b.re, a.im / b.re⟩⟩
+instance : Zero (Nat → CF) := ⟨fun _ => 0⟩
+
+def cfOfJson (j : Json) : Option CF :=
+  match getList? j with
+  | some [a, b] => do some ⟨← getFloat? a, ← getFloat? b⟩
+  | _ => none
+
+def cfsOfJson (j : Json) : Option (Array CF) := (getList? j).bind fun l => (l.mapM cfOfJson).map List.toArray
+
+def jCF (z : CF) : Json := jArr [jF z.re, jF z.im]
+
+/-- one equation's table: `["lin", rows] | ["bil", rows] | ["div", pairs] | ["re", rows] | ["lit", values] | ["none"]` -/
+inductive Tab where
+  | lin (rows : Array (List (Term CF)))
+  | bil (rows : Array (List (Nat × Nat × CF)))
+  | dv (pairs : Array (Nat × Nat))
+  | rp (rows : Array (List (Nat × CF)))
+  | lit (vals : Array CF)
+  | none
+
+def term3 (j : Json) : Option (Nat × Nat × CF) :=
+  match getList? j with
+  | some [a, b, c] => do some (← getNat? a, ← getNat? b, ← cfOfJson c)
+  | _ => Option.none
+
+def term2 (j : Json) : Option (Nat × CF) :=
+  match getList? j with
+  | some [a, c] => do some (← getNat? a, ← cfOfJson c)
+  | _ => Option.none
+
+def pair2 (j : Json) : Option (Nat × Nat) :=
+  match getList? j with
+  | some [a, b] => do some (← getNat? a, ← getNat? b)
+  | _ => Option.none
+
+def rowsOf {β} (f : Json → Option β) (j : Json) : Option (Array (List β)) :=
+  (getList? j).bind fun l => (l.mapM fun r => (getList? r).bind (·.mapM f)).map List.toArray
+
+def tabOfJson (j : Json) : Option Tab :=
+  match getList? j with
+  | some [k, v] =>
+    match getStr? k with
+    | some "lin" => (rowsOf term3 v).map Tab.lin
+    | some "bil" => (rowsOf term3 v).map Tab.bil
+    | some "div" => ((getList? v).bind fun l => (l.mapM pair2).map List.toArray).map Tab.dv
+    | some "re" => (rowsOf term2 v).map Tab.rp
+    | some "lit" => (cfsOfJson v).map Tab.lit
+    | _ => Option.none
+  | some [_] => some Tab.none
+  | _ => Option.none
+
+def famTables (tabs : Array Tab) : FamTables CF where
+  lin p _ i := match tabs.getD p .none with | .lin r => r.getD i [] | _ => []
+  bil p i := match tabs.getD p .none with | .bil r => r.getD i [] | _ => []
+  dv p i := match tabs.getD p .none with | .dv r => r.getD i (0, 0) | _ => (0, 0)
+  rp p i := match tabs.getD p .none with | .rp r => r.getD i [] | _ => []
+  lit p i := match tabs.getD p .none with | .lit r => r.getD i 0 | _ => 0
+
 def termOfJson (j : Json) : Option (Term Float) :=
   match getList? j with
   | some [k, e, c] => do some (← getNat? k, ← getNat? e, ← getFloat? c)
@@ -111,6 +188,20 @@ def handler : Handler := fun op j =>
     let xsF : List (Nat → Float) := xs.map fun l => let a := l.toArray; fun i => a.getD i 0
     let y := applyDescG (fun i => rowsA.getD i []) xsF
     some (ok (jFs ((List.range rows.length).map y)))
+  | "runfam" => do
+    -- the model's `run` under the family interpretation `famDen` (proved sound at ℂ for every table) at complex floats
+    let p ← progOfJson j
+    let tabs ← (← fList? j "tabs").mapM tabOfJson
+    let xs ← (← fList? j "x").mapM cfsOfJson
+    let sizes ← fNats? j "sizes"
+    if xs.length = p.nin then
+      let F := famTables tabs.toArray
+      let I : Interp (Nat → CF) := ⟨famDen (fun z => ⟨z.re, 0⟩) (fun z => ⟨z.re, -z.im⟩) (fun _ _ _ => 0) F⟩
+      let xv : Fin p.nin → (Nat → CF) := fun i => let a := xs.getD i.val #[]; fun k => a.getD k 0
+      let y := run I p xv
+      let outs := (List.ofFn y).zip sizes
+      some (ok (jArr (outs.map fun (f, n) => jArr ((List.range n).map fun k => jCF (f k)))))
+    else some (err "shape")
   | _ => none
 
 def main : IO Unit := mainLoop handler
